@@ -66,8 +66,17 @@ func genMapsOnly(t *rapid.T, d int) map[string]interface{} {
 	return m
 }
 
+// c11Deep > 0 while a deep case is generated: the Map is wrapped in that many single-entry maps and paths may be as long
+var c11Deep int
+
 func genDotPath(t *rapid.T, root map[string]interface{}) []string {
 	n := rapid.IntRange(1, 4).Draw(t, "plen")
+	existDen := 5
+	if c11Deep > 0 {
+		// paths of every length up to the depth of the Map (and a little beyond): 9 segments is as ordinary as 3
+		n = rapid.IntRange(1, c11Deep+5).Draw(t, "deepplen")
+		existDen = 60
+	}
 	var segs []string
 	var cur interface{} = root
 	for i := 0; i < n; i++ {
@@ -76,7 +85,7 @@ func genDotPath(t *rapid.T, root map[string]interface{}) []string {
 			cands = sortedKeys(m)
 		}
 		var s string
-		if len(cands) > 0 && rapid.IntRange(0, 5).Draw(t, "exist") > 0 {
+		if len(cands) > 0 && rapid.IntRange(0, existDen).Draw(t, "exist") > 0 {
 			s = rapid.SampledFrom(cands).Draw(t, "ck")
 		} else {
 			s = rapid.SampledFrom(append([]string{"zz"}, c11Keys...)).Draw(t, "rk")
@@ -170,6 +179,18 @@ func genC11(t *rapid.T) CaseC11 {
 		c11Keys = c11NumericKeys
 	}
 	c := CaseC11{Map: genMapsOnly(t, 3)}
+	c11Deep = 0
+	defer func() { c11Deep = 0 }()
+	if rapid.IntRange(0, 5).Draw(t, "deep") == 0 {
+		c11Deep = rapid.IntRange(4, 70).Draw(t, "depth")
+		for i := 0; i < c11Deep; i++ {
+			outer := map[string]interface{}{rapid.SampledFrom(c11Keys).Draw(t, "wk"): c.Map}
+			if rapid.IntRange(0, 3).Draw(t, "sib") == 0 {
+				outer["sib"] = "s"
+			}
+			c.Map = outer
+		}
+	}
 	model := copyMap(c.Map)
 	n := rapid.IntRange(1, 12).Draw(t, "nops")
 	for i := 0; i < n; i++ {
@@ -338,6 +359,9 @@ func checkC11(c CaseC11, info *Info) *Failure {
 		path := strings.Join(op.Segs, ".")
 		before := copyMap(model)
 		applied, why := applyModel(model, op)
+		if applied && len(op.Segs) >= 8 {
+			info.Class("a successful operation on a path of 8 or more segments")
+		}
 		desc := fmt.Sprintf("step %d %s(%q", i, op.Kind, path)
 		if op.Kind == "rename" {
 			desc += "," + op.NewName
